@@ -41,6 +41,7 @@ def restarted_only(sc):
 
 def run(tier, seed):
     rep = Report("C08", tier, seed)
+    rep.add_proof("WarmRecordsInWindow")
     rep.add_mc("MC_OutFile", tlc.model_check("MC_OutFile", "MC_OutFile.cfg" if tier == "thorough" else "MC_OutFile_quick.cfg", must_take=["Step", "Finish"]),
                note="warm = TRUE: records at steps ops, 2 ops, ... <= Nsteps (WarmFinalRecord)")
     rep.add_mc("MC_Ladim", tlc.model_check("MC_Ladim", "MC_Ladim.cfg" if tier == "thorough" else "MC_Ladim_quick.cfg", must_take=["Restart", "Continue"], timeout=3000),
